@@ -192,6 +192,37 @@ class _Common:
 
     __rmul__ = __mul__
 
+    def _strip(self, chars, left, right):
+        if chars is None:
+            cs = [9, 10, 11, 12, 13, 32]
+        else:
+            cs = _items_of(chars)
+            if cs is None:
+                raise TypeError("a bytes-like object is required")
+        items = list(self._items)
+
+        def hit(b):
+            for c in cs:
+                if b == c:              # forks on a symbolic byte
+                    return True
+            return False
+        if right:
+            while items and hit(items[-1]):
+                items.pop()
+        if left:
+            while items and hit(items[0]):
+                items.pop(0)
+        return self._new(items)
+
+    def rstrip(self, chars=None):
+        return self._strip(chars, False, True)
+
+    def lstrip(self, chars=None):
+        return self._strip(chars, True, False)
+
+    def strip(self, chars=None):
+        return self._strip(chars, True, True)
+
     def __eq__(self, o):
         it = _items_of(o)
         if it is None:
